@@ -5,7 +5,8 @@
 From Coq Require Import List String NArith ZArith Bool.
 From SV Require Import Bin.LE Bin.Struct Bin.StructProofs Bin.RLE Bin.RLEProofs Bin.FindInsert Bin.FindInsertProofs
   Fmt.BspFormatsSpec Fmt.BspFormatsProofs Fmt.BspVisRow Fmt.BspVisRowProofs Fmt.BspTexStrings Fmt.BspTexStringsProofs
-  Fmt.BspRecords Fmt.BspRecordsProofs Fmt.VmfText Fmt.BspEntLump Fmt.BspEntLumpProofs Fmt.BspDedup Fmt.BspDedupProofs Fmt.BspFlagSplit Fmt.BspFlagSplitProofs.
+  Fmt.BspRecords Fmt.BspRecordsProofs Fmt.VmfText Fmt.BspEntLump Fmt.BspEntLumpProofs Fmt.BspDedup Fmt.BspDedupProofs Fmt.BspFlagSplit Fmt.BspFlagSplitProofs
+  Fmt.BspOverlayRec Fmt.BspOverlayRecProofs.
 Import ListNotations.
 
 (** * struct: unpack inverts pack for every format and every fitting record *)
@@ -237,3 +238,52 @@ Theorem c11_reference_roundtrip : forall admitted fields k tr l xs sg w,
   Forall2 (fun o i => exists bs, pack [KInt sg w] [VInt (Z.of_nat i)] = Some bs /\
                                  exists z, unpack [KInt sg w] bs = Some [VInt z] /\ read_back (fst s') (Z.to_nat z) = Some (snd o)) xs is.
 Proof. exact reference_roundtrip. Qed.
+
+(** * The main overlay record: 3 values, the face array, 22 floats -- taken apart by position by the reader, written by four
+    pack calls.  If the labels generated from the source agree ([overlay_rec_ok]), then for ANY assignment of values to
+    labels and any list of at most [count] faces the block (padding seen as zero integers; sizes: c11_overlay_formats) is
+    read back position by position. *)
+Theorem c11_overlay_record_roundtrip : forall reader count rh rf rt wh wf wt,
+  overlay_rec_ok reader count (rh, rf, rt, (wh, wf, wt)) = true ->
+  rh = wh /\ rf = wf /\ rt = wt /\
+  exists r, parse_fmt reader = Some r /\ wf_fmt r = true /\ nvalues r = (List.length rh + count + List.length rt)%nat /\
+    forall (field : slot -> value) (faces : list Z), (List.length faces <= count)%nat ->
+      List.length (overlay_values field wh wt faces count) = nvalues r /\
+      (fits r (overlay_values field wh wt faces count) = true ->
+       exists bs, pack r (overlay_values field wh wt faces count) = Some bs /\ List.length bs = calcsize r /\
+                  unpack r bs = Some (overlay_values field rh rt faces count)).
+Proof. exact overlay_record_roundtrip. Qed.
+Theorem c11_overlay_record_swapped_refuted :
+  overlay_rec_ok "<ihH2i1f" 2 ([["id"]; ["a"]; ["b"]], ["faces"], [["u"]], ([["id"]; ["b"]; ["a"]], ["faces"], [["u"]]))%string = false /\
+  overlay_rec_ok "<ihH2i1f" 2 ([["id"]; ["a"]; ["b"]], ["faces"], [["u"]], ([["id"]; ["a"]; ["b"]], ["faces"], [["u"]]))%string = true.
+Proof. exact overlay_record_swapped_refuted. Qed.
+
+(** The bytes of several pack calls written one after the other are the bytes of one pack with the concatenated format
+    (the overlay writer yields four, the texdata writer two). *)
+Theorem c11_pack_app : forall f1 v1 f2 v2, List.length v1 = nvalues f1 ->
+  pack (f1 ++ f2) (v1 ++ v2) = match pack f1 v1, pack f2 v2 with Some a, Some b => Some (a ++ b) | _, _ => None end.
+Proof. exact pack_app. Qed.
+
+(** [4 * k] pad bytes are what [k] zero integers pack to: the writer's partially filled face array is, byte for byte, the
+    reader's full array with zeros behind the faces. *)
+Theorem c11_overlay_writer_block_is_reader_block : forall h t count (fs : list Z) hv tv,
+  (List.length fs <= count)%nat -> List.length hv = nvalues h ->
+  pack (overlay_writer_fmt h t count (List.length fs)) (hv ++ map VInt fs ++ tv) =
+  pack (overlay_reader_fmt h t count) (hv ++ map VInt fs ++ repeat (VInt 0) (count - List.length fs) ++ tv).
+Proof. exact overlay_writer_block_is_reader_block. Qed.
+
+(** Whole overlay block from the two obligations about today's source ([overlay_ok]: formats for every face count;
+    [overlay_rec_ok]: labels): for every face count the writer admits and every assignment of values to labels, the bytes
+    of the writer's four pack calls are the reader's block, and the reader's unpack returns every attribute from its own
+    position, the faces in order and zeros behind them. *)
+Theorem c11_overlay_block_roundtrip : forall reader head tail count wmax rmax ffmts rh rf rt wh wf wt,
+  overlay_ok reader head tail count wmax rmax ffmts = true ->
+  overlay_rec_ok reader count (rh, rf, rt, (wh, wf, wt)) = true ->
+  exists r h t, parse_fmt reader = Some r /\ parse_fmt head = Some h /\ strs_fmt tail = Some t /\
+  forall (field : slot -> value) (faces : list Z), (List.length faces <= wmax)%nat -> List.length wh = nvalues h ->
+    exists s f, In (List.length faces, s) ffmts /\ parse_fmt s = Some f /\
+      pack (h ++ f ++ t) (map field wh ++ map VInt faces ++ map field wt) = pack r (overlay_values field wh wt faces count) /\
+      (fits r (overlay_values field wh wt faces count) = true ->
+       exists bs, pack (h ++ f ++ t) (map field wh ++ map VInt faces ++ map field wt) = Some bs /\
+                  List.length bs = calcsize r /\ unpack r bs = Some (overlay_values field rh rt faces count)).
+Proof. exact overlay_block_roundtrip. Qed.
